@@ -54,10 +54,9 @@ structure Ext where
 
 /-- `parse_response_body_extensions` after the (optional) decompression: tracing id, warnings, custom payload. -/
 def parseExt (flags : Nat) : M Ext := do
-  let trace ← if hasFlag flags FLAG_TRACING then (do let t ← tag "ext.trace" readUuid; pure (some t)) else pure none
-  let warnings ← if hasFlag flags FLAG_WARNING then tag "ext.warnings" readStringList else pure []
-  let payload ← if hasFlag flags FLAG_CUSTOM_PAYLOAD then
-      (do let p ← tag "ext.payload" readBytesMap; pure (some p)) else pure none
+  let trace ← optRead (hasFlag flags FLAG_TRACING) (tag "ext.trace" readUuid)
+  let warnings ← condRead (hasFlag flags FLAG_WARNING) (tag "ext.warnings" readStringList) []
+  let payload ← optRead (hasFlag flags FLAG_CUSTOM_PAYLOAD) (tag "ext.payload" readBytesMap)
   pure ⟨trace, warnings, payload⟩
 
 /-- Second stage of a Rows result: `deserialize_metadata`, then the raw rows. -/
@@ -99,6 +98,11 @@ def decodeBody (f : Features) (cached : Option ResultMeta) (h : Header) (body : 
         let (rs, s'') := rowsStage r cached s'
         (.ok ⟨h, ext, resp, some rs⟩, s'')
       | _ => (.ok ⟨h, ext, resp, none⟩, s')
+
+/-- The guard in front of `lz4_flex::decompress` (`frame/mod.rs` `decompress`, fix bd65dae): the body must carry the
+4-byte big-endian uncompressed size, and that size must not exceed `255 * compressed_len + 64`. -/
+def lz4Guard (body : Bytes) : Bool :=
+  body.length ≥ 4 ∧ beNat (body.take 4) ≤ 255 * (body.length - 4) + 64
 
 /-- The whole pipeline on the bytes of one frame.  `decomp` is the negotiated decompressor (LZ4 / Snappy are
 external crates: a parameter of the model, fuzzed by the harness), `none` when no compression was negotiated. -/
